@@ -29,7 +29,7 @@ CHECKS = {
     'C04': dict(
         engine='E1 bounded-exhaustive enumeration of redirection sequences on the real binary',
         technique='bounded-exhaustive enumeration of all redirection sequences x commands x spellings x target states, executed by the real binary and compared with a reference descriptor-table model (open file descriptions, left-to-right application)',
-        text='All sequences of up to 2 (thorough 3) redirections over {>f >>f 1>f 2>f 2>>f 2>&1 1>&2 >&2 <g <<<w} with two target files, spaced and attached, on an external program alone and as first/middle/last stage of a three-stage pipeline and on the builtins alias (stdout), unalias (stderr) and read (stdin), with targets absent / present / unopenable, each followed by a command that must be unaffected, are executed by the real binary (924 / 9064 cases); file contents, bytes on the line stdout/stderr, stdin seen, status and not-started-on-unopenable must match the reference model.',
+        text='All sequences of up to 2 (thorough 3) redirections over {>f >>f 1>f 2>f 2>>f 2>&1 1>&2 >&2 <g <<<w} with two target files, spaced and attached, on an external program alone and as first/middle/last stage of a three-stage pipeline on the builtins alias (stdout), unalias (stderr) and read (stdin), and on an external program whose output is captured by "$(...)" (the capture pipe takes the place of stdout), with targets absent / present / unopenable, each followed by a command that must be unaffected, are executed by the real binary (1109 / ~11 k cases); file contents, bytes on the line stdout/stderr, stdin seen, status and not-started-on-unopenable must match the reference model.',
         note='Descriptors 1 and 2, two files; redirection combined with output capture not covered; nine builtin classes are open known findings (builtins resolve redirections by look-ahead).',
         ref='DESIGN.md §4 C04'),
     'C05': dict(
@@ -47,7 +47,7 @@ CHECKS = {
     'C08': dict(
         engine='E2 explicit histories of command templates + E4 fault enumeration (RLIMIT_NOFILE), real binary',
         technique='exhaustive enumeration of all sequences of command templates up to a depth with the shell descriptor table observed after every step, plus exhaustive fault enumeration of every RLIMIT_NOFILE value x pipeline template on the real binary',
-        text='All sequences of up to 2 (thorough 3) of 41 command templates (pipelines, every redirection form on externals and builtins, builtins alone and in pipelines, substitutions of externals / builtins / pipelines, here-strings, failing, not-found and unopenable-target commands, a background job, source, arithmetic, history) run in one real shell with a probe after every command: the shell descriptor table (read from /proc by a helper the shell starts) must stay equal to the initial one and every started program must have exactly descriptors 0,1,2. Every soft RLIMIT_NOFILE value 4..40 x 13 pipeline templates (1..6 stages, with capture, with here-string): clean non-zero failure when pipe creation fails, no hang, descriptor table unchanged, next command works.',
+        text='All sequences of up to 2 (thorough 3) of 41 command templates (pipelines, every redirection form on externals and builtins, builtins alone and in pipelines, substitutions of externals / builtins / pipelines, here-strings, failing, not-found and unopenable-target commands, a background job, source, arithmetic, history) run in one real shell with a probe after every command: the shell descriptor table (read from /proc by a helper the shell starts) must stay equal to the initial one and every started program must have exactly descriptors 0,1,2. Every builtin (alias, unalias, minfd) with every sequence of up to two output redirections, and every captured command $(cmd redirections) / `cmd redirections` (alone and as last pipeline stage) with every sequence of up to two of ten redirections, each followed by a further command. Every soft RLIMIT_NOFILE value 4..40 x 23 pipeline templates (1..6 stages, with capture, with a here-string on every stage position, capture + here-string): clean non-zero failure when pipe creation fails, no hang, descriptor table unchanged, next command works.',
         note='-c mode (no history database / line editor descriptors); limits below 4 cannot be probed; for capture templates the failing pipeline is the inner one, so the line status is not required to be non-zero.',
         ref='DESIGN.md §4 C08'),
     'C09': dict(
@@ -117,10 +117,10 @@ CHECKS = {
         note='Operand set, operator count and string length are the bound; overflow/division by zero/negative exponents are unspecified by the statement and only checked for crash freedom.',
         ref='DESIGN.md §4 C19'),
     'C20': dict(
-        engine='E5 pty session explorer on the real interactive binary (real line editor and completer)',
-        technique='bounded-exhaustive enumeration of all file names up to a length over the special-character alphabet x quoting contexts, completed with TAB in the real interactive binary on a pseudo-terminal and read back through a recording helper',
+        engine='E5 pty session explorer on the real interactive binary (real line editor and completer) + E1 in-process bounded-exhaustive sweep of the real completion / planning functions, bound to the editor by conformance replay',
+        technique='bounded-exhaustive enumeration of all file names up to a length over the special-character alphabet x quoting contexts, completed with TAB in the real interactive binary on a pseudo-terminal and read back through a recording helper; plus bounded-exhaustive enumeration of every name up to length 3 (thorough 4) in every context through the real word-start, path-completion, Enter-processing and planning functions composed in-process, the composition being validated by recomputing every pty verdict (conformance replay)',
         text='Every name of length 1 and 2 (thorough: also 3 in the unquoted context) over a 27-character alphabet of shell-special characters, and 40 structured names (backquote pair, $(x), ${x}, brace group, range, embedded quotes ...) in every context, preceded by a unique prefix, is created as a file (or as a directory for cd); the prefix is typed unquoted, after an open single quote and after an open double quote, TAB and Enter are pressed in the real interactive cicada on a pty: the helper must receive exactly the entry name (cd must enter exactly that directory). Candidate lists (TAB TAB) on a shared-prefix population must offer exactly the entries with the typed prefix, directories only after cd. Failures inside a batch are believed only when reproduced alone in a fresh session.',
-        note='Single-candidate completion per prefix; completion end is detected by terminal quiescence (40 ms); names longer than the bound are outside.',
+        note='Single-candidate completion per prefix; completion end is detected by terminal quiescence (40 ms); names longer than the bound are outside. The in-process layer models only the editor glue (replace the word by the single candidate + suffix); it is used only if it agrees with the real editor on every recomputed verdict.',
         ref='DESIGN.md §4 C20'),
     'C07': dict(
         engine='E5 pty session explorer on the real interactive binary with a reference model of job state',
